@@ -139,13 +139,17 @@ fn substitutes(r: &Rich, ent: &Entry, idx: usize, kind: &SlotKind, pool: usize) 
         SlotKind::TokenProgram => {
             out.push(("the token program that does not own the mint", if cur == TOKEN { TOKEN22 } else { TOKEN }));
             out.push(("a program that is not a token program", MEMO));
+            out.push(("a program that accepts every instruction", crate::rt::obliging_program()));
         }
         SlotKind::MemoProgram => {
             out.push(("another program", SYS));
             out.push(("another program", TOKEN));
+            out.push(("the legacy Memo v1 program", crate::rt::memo_v1_program()));
+            out.push(("a program that accepts every instruction", crate::rt::obliging_program()));
         }
         SlotKind::SystemProgram => {
             out.push(("another program", MEMO));
+            out.push(("a program that accepts every instruction", crate::rt::obliging_program()));
         }
         SlotKind::Config => {
             out.push(("another config", w.configs[r.cfg2].key));
